@@ -1051,6 +1051,13 @@ func (h *Hashgraph) DecideRoundReceived() error {
 				// it doesn't have any other-parent). If the other nodes have
 				// already processed many rounds (more than the cache-limit),
 				// then they will enter this condition upon looking for round 1.
+				// A node that was reset from a Frame (cf fastsync) never had
+				// the rounds below its lower bound; none of them can have
+				// received this Event, so keep looking in the later rounds as
+				// the nodes with the full history do.
+				if h.roundLowerBound != nil && i <= *h.roundLowerBound {
+					continue
+				}
 				break
 			}
 
